@@ -386,5 +386,6 @@ func extractC08() *lean {
 		})
 	}
 	strs("statisticsCountSource", stat)
+	c08CodecFacts(l)
 	return l
 }
